@@ -107,6 +107,7 @@ type nq struct {
 	mustNo bool // contains a must_not clause
 	minSh  bool // contains a count >= 2 (disjunction min / should min) over clauses on different levels: must combine per parent
 	ambig  bool // contains a count >= 2 over clauses of one and the same array: the statement does not say per element or per parent
+	reqSh  bool // contains a boolean with must clauses and a required should (min >= 1) whose clauses may address different levels
 }
 
 func genNLeaf(r *Rng, only string) nq {
@@ -136,6 +137,7 @@ func genNQuery(r *Rng, depth int, only string) nq {
 		return genNLeaf(r, only)
 	}
 	ambig := false
+	reqSh := false
 	kids := func(lo, hi int, only string) ([]query.Query, string, bool, bool) {
 		n := r.Range(lo, hi)
 		qs := make([]query.Query, n)
@@ -148,6 +150,7 @@ func genNQuery(r *Rng, depth int, only string) nq {
 			mn = mn || k.mustNo
 			ms = ms || k.minSh
 			ambig = ambig || k.ambig
+			reqSh = reqSh || k.reqSh
 		}
 		return qs, fmt.Sprintf("%d%s", n, sb.String()), mn, ms
 	}
@@ -159,7 +162,7 @@ func genNQuery(r *Rng, depth int, only string) nq {
 	switch r.Intn(4) {
 	case 0, 1:
 		qs, t, mn, ms := kids(2, 3, sub)
-		return nq{bleve.NewConjunctionQuery(qs...), "C " + t, mn, ms, ambig}
+		return nq{bleve.NewConjunctionQuery(qs...), "C " + t, mn, ms, ambig, reqSh}
 	case 2:
 		qs, t, mn, ms := kids(2, 3, sub)
 		dq := bleve.NewDisjunctionQuery(qs...)
@@ -172,7 +175,7 @@ func genNQuery(r *Rng, depth int, only string) nq {
 				ambig = true
 			}
 		}
-		return nq{dq, fmt.Sprintf("D %d %s", min, t), mn, ms, ambig}
+		return nq{dq, fmt.Sprintf("D %d %s", min, t), mn, ms, ambig, reqSh}
 	default:
 		bq := bleve.NewBooleanQuery()
 		var sb strings.Builder
@@ -204,6 +207,15 @@ func genNQuery(r *Rng, depth int, only string) nq {
 					ambig = true
 				}
 			}
+			if hasMust && minS >= 1 {
+				if sub == "*" {
+					reqSh = true
+				} else {
+					// must and a required should inside one array: the statement does not say whether one
+					// element has to satisfy both (as for a conjunction) or the parent
+					ambig = true
+				}
+			}
 		} else {
 			sb.WriteString(" 0")
 		}
@@ -216,7 +228,7 @@ func genNQuery(r *Rng, depth int, only string) nq {
 			sb.WriteString(" 0")
 		}
 		fmt.Fprintf(&sb, " %d", minS)
-		return nq{bq, sb.String(), mustNo, minSh, ambig}
+		return nq{bq, sb.String(), mustNo, minSh, ambig, reqSh}
 	}
 }
 
@@ -298,6 +310,8 @@ func runC20(t *Trace, r *Rng, tier string, _ []string) {
 					cat = "nested/search-with-must-not"
 				} else if nested && g.minSh {
 					cat = "nested/search-with-min-count"
+				} else if nested && g.reqSh {
+					cat = "nested/search-with-required-should-across-levels"
 				}
 				if err != nil {
 					t.Emit(cat+"-err", true, op, "ERR")
